@@ -23,13 +23,17 @@ Python → Lean (names of the Python variables kept):
 * `_fill_buffer`                  : `fillBuffer` / `fillLoop` (fuel = number of loop-body executions)
 * `_read_all`, `_read_block`      : `readAll` / `readAllLoop`, `readBlock` / `readBlockLoop`
 * `read`, `readinto` (io.BufferedIOBase.readinto = `read(len(b))`), `readline` (io.IOBase.readline without
-  `peek` = repeated `read(1)`), `tell`, `seek` (+ `_rewind`), `close` : same names
+  `peek` = repeated `read(1)`), `tell`, `seek` (+ `_rewind`; the part after the whence arithmetic is `seekAbs`),
+  `close` : same names
 * `write`, `close` in mode "wb"   : `WFile.write`, `WFile.close` over an abstract `Compressor`
 * `numpy_pickle_utils._detect_compressor` : `detectCompressor`
 * `_read_bytes`                   : `readBytes`
 * `load` on a zlib/gzip file      : `loadZ` = `io.BufferedReader(BinaryZlibFile, 1 MiB)` asking for `_IO_BUFFER_SIZE`
                                     bytes at a time until the unpickler has the `need` bytes of the pickle
 * `MemorizedFunc._cached_call`'s `try: load … except Exception: recompute` : `cachedCall`
+* `predictLoad` : the outcome class of `joblib.load` on a damaged file (`detectCompressor`, then `loadZ` for
+  zlib/gzip, the unpickler contract `loadPlain` for an uncompressed file, contract only for bz2/lzma/xz);
+  `scriptCodec` : a `Codec` given by a table of observed cumulative output lengths (used by the driver only)
 
 Loops whose termination is part of the property take fuel; running out of fuel is the fault `outOfFuel`
 (never a Python exception).  Import-free, total, computable.
